@@ -39,12 +39,12 @@ class C18(Prop):
                 "births": [2, 0, 1], "mort": {"mods": 1}, "disease": {"states": 3, "p": [5, 8], "self": True},
                 "stepmod": {"every": 3, "mult": 2}, "obs": {"strats": 3, "concat": True, "values": 5}, "extras": {"pafs": [0.25, 0.5]}}
         vary = dict(full, step=1, n_steps=6, pop=6, births=[1, 0], disease=None, obs=None, stepmod={"every": 2, "mult": 3, "vary": True})
-        return [{"spec": full, "hs_save": 1, "hs_resume": 2, "noise": 5}, {"spec": vary, "hs_save": 0, "hs_resume": 3, "noise": 9}]
+        return [{"spec": full, "hs_save": 1, "hs_resume": 2, "noise": 5}, {"spec": vary, "hs_save": 0, "hs_resume": 3, "noise": 9, "interactive_saves": True}]
 
     def generate(self, rng: random.Random, i: int, tier: str):
         spec = enginekit.gen_spec(rng, small=(tier == "quick"))
         return {"spec": spec, "hs_save": rng.choice([0, 1, "random"]), "hs_resume": rng.choice([2, 3, "random"]),
-                "noise": rng.randint(0, 10_000), "all_crash_points": tier == "thorough"}
+                "noise": rng.randint(0, 10_000), "all_crash_points": tier == "thorough", "interactive_saves": rng.random() < 0.5}
 
     def shrink(self, case):
         s = case["spec"]
@@ -63,6 +63,7 @@ class C18(Prop):
                 return {"full": {"error": full["error"], "trace": full.get("trace", "")[-400:]}, "resumed": []}
             nsteps = sum(1 for x in full["digests"] if x.startswith("metrics:"))
             saves = [({"spec": spec, "mode": "step", "noise": case["noise"], "prior_contexts": 1, "save_at": n,
+                       "save_ctx": "interactive" if (case.get("interactive_saves") and n % 2 == 1) else "engine",
                        "save_path": os.path.join(d, f"bk{n}.pkl")}, case["hs_save"]) for n in range(nsteps + 1)]
             # the engine's own backup path with a simulated crash (run(backup_path, backup_freq) + exception in the next step)
             crash_ns = list(range(nsteps + 1)) if case.get("all_crash_points") else sorted({0, nsteps // 2, nsteps})
